@@ -117,9 +117,15 @@ fn centres(rng: &mut Rng, k: usize, p: usize, spread: f64, dmin: f64) -> Vec<Vec
 }
 
 fn draw_data(c: &mut Case, k: usize, mixed: bool) -> Data {
+    draw_data_mode(c, k, mixed, false)
+}
+
+/// `corner`: every dimension of the quantifier at its far end at once — 85..100 rows, 3..6 features, feature scale
+/// 50..100, every feature 8..12 scale units off centre
+fn draw_data_mode(c: &mut Case, k: usize, mixed: bool, corner: bool) -> Data {
     let rng = &mut c.rng;
-    let p = if mixed { rng.us(2, 6) } else { rng.us(1, 6) };
-    let n = if rng.bool(0.4) { rng.us(6.max(k), 20) } else { rng.us(6.max(k), 100) };
+    let p = if corner { rng.us(3, 6) } else if mixed { rng.us(2, 6) } else { rng.us(1, 6) };
+    let n = if corner { rng.us(85, 100) } else if rng.bool(0.4) { rng.us(6.max(k), 20) } else { rng.us(6.max(k), 100) };
     let layout: &'static str = *rng.pick(&["overlap", "overlap", "moderate", "separable", "separable"]);
     // class membership: every class present, otherwise by random (possibly very unbalanced) weights
     let wts: Vec<f64> = (0..k).map(|_| if rng.bool(0.2) { rng.uni(0.02, 0.2) } else { rng.uni(0.5, 1.0) }).collect();
@@ -186,11 +192,14 @@ fn draw_data(c: &mut Case, k: usize, mixed: bool) -> Data {
         let pm = rng.perm(p);
         (0..p).map(|j| s[pm[j]]).collect()
     } else {
-        let s = rng.logu(0.1, 100.0);
+        let s = if corner { rng.uni(50.0, 100.0) } else { rng.logu(0.1, 100.0) };
         (0..p).map(|_| (s * rng.logu(0.5, 2.0)).max(0.1).min(100.0)).collect()
     };
-    let sm = if rng.bool(0.25) { 0.0 } else { rng.uni(0.0, 5.0) };
-    let shifts: Vec<f64> = (0..p).map(|j| scales[j] * sm * rng.uni(-1.0, 1.0)).collect();
+    // shift: none, up to 5 scale units with random sign and size per feature, or (1 in 8) every feature far off
+    // centre by 8..12 scale units (a year column, a temperature in Kelvin)
+    let far = corner || rng.bool(0.125);
+    let sm = if far { rng.uni(8.0, 12.0) } else if rng.bool(0.25) { 0.0 } else { rng.uni(0.0, 5.0) };
+    let shifts: Vec<f64> = (0..p).map(|j| scales[j] * sm * if far { if rng.bool(0.5) { 1.0 } else { -1.0 } } else { rng.uni(-1.0, 1.0) }).collect();
     let x = Mat::from_fn(n, p, |i, j| u.at(i, j) * scales[j] + shifts[j]);
     let (labels, label_kind) = draw_labels(rng, k);
     Data { x, yi, labels, k, layout, label_kind, scales, shifts, lattice }
@@ -259,6 +268,7 @@ fn describe_data(c: &mut Case, what: &str, d: &Data, alpha: f64) {
     let smax = d.scales.iter().cloned().fold(0.0f64, f64::max);
     c.bucket(scale_bucket(smax));
     c.bucket_if(d.shifts.iter().any(|s| *s != 0.0), "shifted");
+    c.bucket_if(d.shifts.iter().zip(d.scales.iter()).all(|(s, sc)| s.abs() >= 8.0 * sc), "shifted:all-features-8..12-scale-units");
     c.bucket_if(d.lattice, "lattice(duplicate/tied feature values)");
     let mut cnt = vec![0usize; d.k];
     for &i in &d.yi {
@@ -677,7 +687,8 @@ fn check_predictions(c: &mut Case, d: &Data, ft: &Fitted, sg: &str) {
 
 fn logistic_case(c: &mut Case, k: usize, mode: &str) {
     let mixed = mode == "mixed";
-    let d = if mode == "lattice0" { draw_lattice(c, k) } else { draw_data(c, k, mixed) };
+    let d = if mode == "lattice0" { draw_lattice(c, k) } else { draw_data_mode(c, k, mixed, mode == "corner") };
+    c.bucket_if(mode == "corner", "quantifier-corner:rows,features,scale,shift-all-at-the-far-end");
     let alpha = if mode == "alpha0" || mode == "lattice0" { 0.0 } else { c.rng.logu(1e-2, 10.0) };
     describe_data(c, if mixed { "logistic-fit(mixed feature scales, informational)" } else { "logistic-fit" }, &d, alpha);
     c.bucket(if alpha == 0.0 {
@@ -751,7 +762,12 @@ fn logistic_case(c: &mut Case, k: usize, mode: &str) {
                 if denom > 1e-9 * f0.abs() {
                     let gap = (fw - nt.f).max(0.0);
                     c.bucket(&decade_bucket(&format!("{}:objective-gap", tag), gap / denom));
-                    if k == 2 || B_MULTI_VERDICT {
+                    if mode == "corner" {
+                        // the statement's criterion is the gradient (oracle A above); the coarse objective-gap
+                        // cross-check was calibrated on the main families and is informational in the corner of the
+                        // quantifier, where the objective is nearly flat along some directions
+                        c.bucket(if gap <= GAP_TOL * denom { "info:corner:objective-gap-within-1e-2" } else { "info:corner:objective-gap-ABOVE-1e-2(no verdict)" });
+                    } else if k == 2 || B_MULTI_VERDICT {
                         c.ratio(&format!("lr.optimum-gap.{}", tag), gap, GAP_TOL * denom, &sg, || {
                             format!("f(ŵ) = {:.15e}, f* = {:.15e} (Newton, {} iterations, own gradient {:e}), f(0) = {:.15e}, relative gap {:e}, alpha = {}", fw, nt.f, nt.iters, nt.gnorm, f0, gap / denom, alpha)
                         });
@@ -784,6 +800,10 @@ fn lr_alpha0(c: &mut Case) {
 fn lr_alpha0_lattice(c: &mut Case) {
     let k = if c.rng.bool(0.7) { 2 } else { 3 };
     logistic_case(c, k, "lattice0");
+}
+fn lr_corner(c: &mut Case) {
+    let k = c.rng.us(2, 4);
+    logistic_case(c, k, "corner");
 }
 fn lr_mixed(c: &mut Case) {
     let k = c.rng.us(2, 4);
@@ -1074,7 +1094,7 @@ fn api_paths_fam(c: &mut Case) {
 fn main() {
     runner::main(Spec {
         property: "C09",
-        rule: "logistic families: seeded data sets with 6..100 rows, 1..6 features (one scale per data set log-uniform in [0.1,100] × per-feature jitter in [0.5,2], shift up to 5 scale units), 2..4 classes with arbitrary distinct label values (0..k-1, negative, non-contiguous, fractional, any magnitude), layouts overlap / moderate / separable (unit balls around centres >= 4 apart), optional lattice features with duplicates, alpha log-uniform in [1e-2,10] (families lr_binary, lr_multi) or alpha = 0 (lr_alpha0: monotonicity and predictions only; lr_alpha0_lattice: the same on small separable integer-lattice sets, 6..12 rows, 1..2 features, entries integer in -10..10 times one multiplier in {0.1,0.5,1,2,5,10}, classes = intervals of the first feature); every fit whose oracles were evaluated is non-trivial; lr_mixed (independent per-feature scales spanning >= 30x) is informational, never non-trivial, no verdict. lbfgs_quad: SPD quadratics of dimension 1..12, condition number <= 1e4 measured by a Jacobi eigen-solver, overall scale in [1e-2,1e2], minimiser magnitude 0 or [1e-2,1e2], starts zero / random / around the minimiser / integer, both interpolation orders, objective evaluated by the closures in expanded (½xᵀAx−bᵀx) or centred (½(x−x*)ᵀA(x−x*)) form; non-trivial when the start is not already stationary (‖g0‖∞ >= 1e-8). distinct = hash of the materialised input (X, y, alpha) resp. (A, b, x0, order)",
+        rule: "logistic families: seeded data sets with 6..100 rows, 1..6 features (one scale per data set log-uniform in [0.1,100] × per-feature jitter in [0.5,2], shift up to 5 scale units per feature, or all features 8..12 scale units off centre), 2..4 classes with arbitrary distinct label values (0..k-1, negative, non-contiguous, fractional, any magnitude), layouts overlap / moderate / separable (unit balls around centres >= 4 apart), optional lattice features with duplicates, alpha log-uniform in [1e-2,10] (families lr_binary, lr_multi) or alpha = 0 (lr_alpha0: monotonicity and predictions only; lr_alpha0_lattice: the same on small separable integer-lattice sets, 6..12 rows, 1..2 features, entries integer in -10..10 times one multiplier in {0.1,0.5,1,2,5,10}, classes = intervals of the first feature); every fit whose oracles were evaluated is non-trivial; lr_mixed (independent per-feature scales spanning >= 30x) is informational, never non-trivial, no verdict. lbfgs_quad: SPD quadratics of dimension 1..12, condition number <= 1e4 measured by a Jacobi eigen-solver, overall scale in [1e-2,1e2], minimiser magnitude 0 or [1e-2,1e2], starts zero / random / around the minimiser / integer, both interpolation orders, objective evaluated by the closures in expanded (½xᵀAx−bᵀx) or centred (½(x−x*)ᵀA(x−x*)) form; non-trivial when the start is not already stationary (‖g0‖∞ >= 1e-8). distinct = hash of the materialised input (X, y, alpha) resp. (A, b, x0, order)",
         assumptions: vec![
             "objective convention: NLL + (alpha/2)·‖W‖² with unpenalised intercepts (the convention under which the unchanged code is stationary); two classes: the larger label is the positive class",
             "'features scaled 1e-1..1e2' is read as one scale per data set with per-feature jitter in [0.5,2]; data sets mixing scales 0.1 and 100 are run as informational only (no verdict)",
@@ -1091,6 +1111,7 @@ fn main() {
             Family::new("lr_multi", 1500, 30000, lr_multi),
             Family::new("lr_alpha0", 1500, 30000, lr_alpha0),
             Family::new("lr_alpha0_lattice", 1500, 30000, lr_alpha0_lattice),
+            Family::new("lr_corner", 300, 1500, lr_corner),
             Family::new("lr_mixed", 200, 4000, lr_mixed),
             Family::new("lbfgs_quad", 5000, 100000, lbfgs_quad),
         ],
